@@ -78,6 +78,46 @@ m("C03", "finalizing-not-reported-paused", "channels/channel_state.go",
   "return c.ic.ResponderPaused || (c.ic.RequiresFinalization && c.ic.Status == datatransfer.Finalizing)",
   "C03.4", "responder awaiting finalization reports itself un-paused and is never released", "seeded/C03-b")
 
+# ---------------- C02
+CH = "channels/channels.go"
+IMPL = "impl/impl.go"
+m("C02", "restart-terminated-reissues", IMPL,
+  "	if channels.IsChannelTerminated(channel.Status()) {\n		return nil\n	}\n\n	// if channel is is cleanup state",
+  "	// if channel is is cleanup state",
+  "C02.4", "restart of a terminated channel re-issues requests", "calibration")
+m("C02", "cancel-terminated-errors", CH,
+  "	if errors.Is(err, statemachine.ErrTerminated) {\n		return nil\n	}\n\n	return err",
+  "	if errors.Is(err, statemachine.ErrTerminated) {\n		return err\n	}\n\n	return err",
+  "C02.3", "cancel of a terminated channel returns an error", "calibration")
+m("C02", "restart-request-terminated-ok", "impl/restart.go",
+  "	if channels.IsChannelTerminated(channel.Status()) {\n		return errors.New(\"channel is already terminated\")\n	}\n",
+  "	if channels.IsChannelTerminated(channel.Status()) {\n		log.Warn(\"channel is already terminated\")\n	}\n",
+  "C02.5", "restart request for a terminated channel passes validation")
+m("C02", "row-out-of-failed", FSM,
+  "fsm.Event(datatransfer.Restart).FromAny().ToJustRecord()",
+  "fsm.Event(datatransfer.Restart).FromAny().ToJustRecord().From(datatransfer.Failed).To(datatransfer.Ongoing)",
+  "C02.2", "a declared row leaves a terminal status")
+m("C02", "no-finality-states", CH,
+  "		FinalityStates:  ChannelFinalityStates,\n",
+  "",
+  "C02.1", "the state machine is not told which statuses are final")
+m("C02", "migration-folds-cancelled", "channels/internal/migrations/migrations.go",
+  "	if newStatus == datatransfer.ResponderPaused || newStatus == datatransfer.InitiatorPaused || newStatus == datatransfer.BothPaused {",
+  "	if newStatus > datatransfer.Cancelling && newStatus <= datatransfer.BothPaused {",
+  "C02.8", "migration rewrites a Cancelled channel to Ongoing on reopen", "seeded/C02a")
+m("C02", "restart-existing-wrong-helper", "impl/receiver.go",
+  "	if channels.IsChannelTerminated(channel.Status()) {\n		log.Errorf(\"cannot restart channel %s: channel already terminated\", ch)",
+  "	if channels.IsChannelCleaningUp(channel.Status()) {\n		log.Errorf(\"cannot restart channel %s: channel already terminated\", ch)",
+  "C02.6", "restart-existing request honoured for a terminated channel", "seeded/C02b")
+m("C02", "terminated-helper-wrong-list", FSM,
+  "	for _, s := range ChannelFinalityStates {\n		if s == st {",
+  "	for _, s := range CleanupStates {\n		if s == st {",
+  "C02.1", "IsChannelTerminated tests the cleanup list")
+m("C02", "failed-not-final", FSM,
+  "var ChannelFinalityStates = []fsm.StateKey{\n	datatransfer.Cancelled,\n	datatransfer.Completed,\n	datatransfer.Failed,\n}",
+  "var ChannelFinalityStates = []fsm.StateKey{\n	datatransfer.Cancelled,\n	datatransfer.Completed,\n}",
+  "C02.1", "Failed is not absorbing")
+
 by = collections.defaultdict(list)
 for x in M:
     p = x.pop("prop")
